@@ -541,6 +541,51 @@ def build_reply(text):
     types = re.findall(r'TYPE::(\w+)', a.group(1))
     return {'answerSub': m.group(1), 'targetSub': m.group(3), 'types': types}
 
+# ------------------------------------------------------------------ simple-mdns: what a received response adds to the store and reports
+def ingest(text, where, aw):
+    W = f'{where}: add_response_to_resources' + (' / collect_response' if aw else '')
+    body = fn_body(text, 'collect_response' if aw else 'add_response_to_resources', W)
+    m = re.search(r'packet\.(\w+)\.into_iter\(\)\.chain\(packet\.(\w+)\)\.filter\(\|aw\|([^|{}]*?)\)\.map\(\|r\|r\.into_owned\(\)\)', body)
+    if not m or len(re.findall(r'packet\.', body)) != 2: refuse(W, "the records taken from the packet are not `answers` chained with another section, filtered, made owned")
+    known = {'aw.name.ne(full_name)': 'not-the-own-name', 'aw.name.is_subdomain_of(service_name)': 'below-the-service'}
+    conj = m.group(3).split('&&')
+    if any(c not in known for c in conj): refuse(W, f"filter not recognised: {m.group(3)}")
+    if len(re.findall(r'let mut owners:Vec<&Name>=Vec::new\(\);for resource in&resources\{if!owners\.contains\(&&resource\.name\)\{owners\.push\(&resource\.name\);\}\}', body)) != 1:
+        refuse(W, "the list of owner names is not built as expected")
+    if len(re.findall(r'for owner in owners\{', body)) != 1 or len(re.findall(r'InstanceInformation::from_records\(service_name,resources\.iter\(\)\.filter\(\|r\|&r\.name==owner\),?\)', body)) != 1:
+        refuse(W, "one report per owner name expected")
+    n = len(re.findall(r'for resource in resources\{owned_resources\.add_cached_resource\(resource\);\}', body))
+    if n != (1 if aw else 2) or len(re.findall(r'add_cached_resource', body)) != n: refuse(W, "every kept record is expected to be cached, whether or not there is a listener")
+    if aw:
+        outer = fn_body(text, 'add_response_to_resources', W)
+        if not re.match(r'let reports=collect_response\(packet,service_name,full_name,owned_resources,on_discovery\.is_some\(\),?\);send_reports\(reports,on_discovery\)\.await$', outer):
+            refuse(W, f"add_response_to_resources: {outer[:200]}")
+    return {'sections': [m.group(1), m.group(2)], 'filter': sorted(known[c] for c in conj)}
+
+def from_records(text):
+    W = 'simple-mdns/src/instance_information.rs: InstanceInformation::from_records'
+    b = fn_body(text, 'from_records', W)
+    m = re.match(r'let mut ip_addresses:HashSet<IpAddr>=Default::default\(\);let mut ports=HashSet::new\(\);let mut attributes=HashMap::new\(\);let mut instance_name:Option<String>=Default::default\(\);'
+                 r'for resource in records\{if instance_name\.is_none\(\)\{instance_name=resource\.name\.without\(service_name\)\.map\(\|(\w+)\|\1\.to_string\(\)\);\}'
+                 r'match&resource\.rdata\{(?P<arms>.*)_=>\{\}\}\}instance_name\.map\(\|instance_name\|InstanceInformation\{instance_name,ip_addresses,ports,attributes,?\}\)$', b)
+    if not m: refuse(W, f"body not recognised: {b[:300]}")
+    R = r'(?:simple_dns::rdata::)?RData::'
+    shapes = [(R + r'A\((\w+)\)=>\{ip_addresses\.insert\(std::net::Ipv4Addr::from\(\1\.address\)\.into\(\)\);\}', ('A', 'ipv4')),
+              (R + r'AAAA\((\w+)\)=>\{ip_addresses\.insert\(std::net::Ipv6Addr::from\(\1\.address\)\.into\(\)\);\}', ('AAAA', 'ipv6')),
+              (R + r'TXT\((\w+)\)=>attributes\.extend\(\1\.attributes\(\)\.into_iter\(\)\.filter\(\|\(key,_\)\|!key\.is_empty\(\)\),?\),', ('TXT', 'attributes-with-a-key')),
+              (R + r'TXT\((\w+)\)=>attributes\.extend\(\1\.attributes\(\)\),', ('TXT', 'attributes')),
+              (R + r'SRV\((\w+)\)=>\{ports\.insert\(\1\.port\);\}', ('SRV', 'port'))]
+    rest, arms = m.group('arms'), []
+    while rest:
+        for rx, v in shapes:
+            a = re.match(rx, rest)
+            if a:
+                arms.append(v); rest = rest[a.end():]; break
+        else:
+            refuse(W, f"arm not recognised: {rest[:120]}")
+    if len({a for a, _ in arms}) != len(arms): refuse(W, "a record type has two arms")
+    return arms
+
 # ------------------------------------------------------------------ name.rs: the relations between names
 def name_relations(text):
     W = 'name.rs: is_link_local / is_subdomain_of / without'
@@ -683,6 +728,11 @@ def generate(repo):
     sf = attempt('mdns.store_filter', need('x', store_filter))
     sl = attempt('mdns.store_lookup', need('x', store_lookup))
     br = attempt('mdns.build_reply', need('mlib', build_reply))
+    files['dsk'] = read_keep('simple-mdns/src/sync_discovery/service_discovery.rs')
+    files['dak'] = read_keep('simple-mdns/src/async_discovery/service_discovery.rs')
+    ing = [attempt('mdns.ingest:sync', need('dsk', lambda t: ingest(t, 'sync_discovery/service_discovery.rs', False))),
+           attempt('mdns.ingest:tokio', need('dak', lambda t: ingest(t, 'async_discovery/service_discovery.rs', True)))]
+    fr = attempt('mdns.from_records', lambda: need('inst', from_records)())
     files['modrs'] = read('simple-dns/src/dns/mod.rs')
     qo = attempt('codes.question_codes_out', need('modrs', qcodes_out))
     mw = attempt('packet.message_writer', need('p', message_writer))
@@ -798,6 +848,11 @@ def generate(repo):
           "def replyAnswerSub : Option String := " + ('none' if br is None else 'some ' + q(br['answerSub'])),
           "def replyTargetSub : Option String := " + ('none' if br is None else 'some ' + q(br['targetSub'])),
           "def replyAdditionalTypes : Option (List String) := " + ('none' if br is None else 'some ' + strs(br['types'])),
+          "/-- `add_response_to_resources` (sync, tokio): the sections the records are taken from, in order, and the conditions a record must meet to be kept -/",
+          "def ingestSections : List (Option (List String)) := [" + ', '.join('none' if v is None else 'some ' + strs(v['sections']) for v in ing) + "]",
+          "def ingestFilter : List (Option (List String)) := [" + ', '.join('none' if v is None else 'some ' + strs(v['filter']) for v in ing) + "]",
+          "/-- `InstanceInformation::from_records`: what each kind of record contributes -/",
+          "def fromRecordsArms : Option (List (String × String)) := " + ('none' if fr is None else 'some [' + ', '.join(f'({q(a)}, {q(b)})' for a, b in fr) + ']'),
           "/-- `From<QTYPE> for u16` and `From<QCLASS> for u16` (the codes the writers emit): (variant, code; `none` for the arm that converts the wrapped TYPE / CLASS) -/",
           "def qtypeToCode : Option (List (String × Option Nat)) := " + ('none' if qo is None else 'some [' + ', '.join(f'({q(a)}, {"none" if b == "inner" else "some " + b})' for a, b in qo['QTYPE']) + ']'),
           "def qclassToCode : Option (List (String × Option Nat)) := " + ('none' if qo is None else 'some [' + ', '.join(f'({q(a)}, {"none" if b == "inner" else "some " + b})' for a, b in qo['QCLASS']) + ']'),
